@@ -169,6 +169,29 @@ Theorem sum_time (A1 c1 s1 A2 c2 s2 C S : K) :
   time_of (Cx (gen_sum_x A1 c1 s1 A2 c2 s2) (gen_sum_y A1 c1 s1 A2 c2 s2)) C S =
   fadd (time_of (cscale A1 (Cx c1 s1)) C S) (time_of (cscale A2 (Cx c2 s2)) C S).
 Proof. rewrite sum_xy_is_phasor_sum. apply time_add. Qed.
+(* the else branch over any field: if r is a square root of x^2 + y^2 (what sqrt returns) and the
+   angle has (cos, sin) = (x / r, y / r) (what atan2(y, x) returns), the merged phasor is x + j y *)
+Theorem sum_branch_else (r x y : K) : fmul r r = fadd (fmul x x) (fmul y y) -> r <> f0 ->
+  cscale r (Cx (fdiv x r) (fdiv y r)) = Cx x y.
+Proof. intros E Hr. exact (proj1 (polar_sound K r x y E Hr)). Qed.
+
+(* ---- Expr.magnitude / phase / dB (frequency response read-out) ------------------ *)
+(* self = (Nr + j Ni) / D with D real: magnitude = sqrt(gen_mag_num_sq) / D squares to |self|^2 *)
+Theorem gen_magnitude_sound (Nr Ni D m r : K) : D <> f0 -> fmul r r = gen_mag_num_sq Nr Ni -> m = fdiv r D ->
+  fmul m m = fadd (fmul (fdiv Nr D) (fdiv Nr D)) (fmul (fdiv Ni D) (fdiv Ni D)).
+Proof. intros HD E Hm. exact (mag_sq_quotient K Nr Ni D m r HD E Hm). Qed.
+(* phase = atan2(imag, real): with the sqrt/atan2 contract, magnitude e^{j phase} gives back the number *)
+Theorem gen_phase_args_ok : gen_phase_atan2_args = (PIm, PRe).
+Proof. reflexivity. Qed.
+Theorem gen_polar_sound (r x y : K) : fmul r r = gen_mag_num_sq x y -> r <> f0 ->
+  cscale r (Cx (fdiv x r) (fdiv y r)) = Cx x y.
+Proof. intros E Hr. exact (proj1 (polar_sound K r x y E Hr)). Qed.
+(* a real number a >= 0 has phase 0, -a has phase pi: |x| e^{j phase} = x *)
+Theorem gen_phase_real_sound (a : K) :
+  cscale a (qturn gen_phase_real_nonneg) = Cx a f0 /\ cscale a (qturn gen_phase_real_neg) = Cx (fopp a) f0.
+Proof. unfold gen_phase_real_nonneg, gen_phase_real_neg, qturn. cbn. split; apply cx_eq; cbn; ring. Qed.
+Theorem gen_dB_factors : gen_dB_factor = 20%Z /\ gen_dB_power_factor = 10%Z.
+Proof. split; reflexivity. Qed.
 End Ph.
 
 Print Assumptions ac_is_s_at_jw_Z.
@@ -178,4 +201,9 @@ Print Assumptions phasor_time_roundtrip_gen.
 Print Assumptions vac_roundtrip.
 Print Assumptions sum_branch_y0.
 Print Assumptions sum_branch_x0.
+Print Assumptions sum_branch_else.
+Print Assumptions gen_magnitude_sound.
+Print Assumptions gen_polar_sound.
+Print Assumptions gen_phase_real_sound.
+Print Assumptions gen_dB_factors.
 Print Assumptions sum_xy_is_phasor_sum.
